@@ -547,8 +547,13 @@ def decide(fam, tier, seed, max_playback=3):
     return 0
 
 
+WRITE_EVIDENCE = True
+
+
 def write_evidence(fam, tier, seed, discharged, results, dropped, info, wall, undecided, violations, known,
                    controls_ok=0):
+    if not WRITE_EVIDENCE:  # --replay runs decide one obligation only and must not overwrite the evidence of the check
+        return
     os.makedirs(os.path.join(VERIF, "evidence"), exist_ok=True)
     obs = [(p, h) for p in fam.programs for h in p.harnesses if h.kind != "negative_control"]
     complete = [(p, h) for p, h in obs if not h.bounded]
